@@ -30,6 +30,18 @@ pub(crate) struct IndexScenario<'a> {
     pub filter_batch: u64,
     pub fetch_txs: Vec<packed::Byte32>,
     pub fetch_headers: Vec<u64>,
+    /// start number of the first script after the user raised it (Dev::SetScripts(_, 1))
+    pub raised: std::cell::RefCell<Option<u64>>,
+}
+
+impl<'a> IndexScenario<'a> {
+    pub(crate) fn effective_regs(&self) -> Vec<Reg> {
+        let mut regs = self.regs.clone();
+        if let Some(n) = *self.raised.borrow() {
+            regs[0].start = n;
+        }
+        regs
+    }
 }
 
 impl<'a> Scenario for IndexScenario<'a> {
@@ -43,6 +55,7 @@ impl<'a> Scenario for IndexScenario<'a> {
             None => scen::new_sim(self.env, self.cfg.clone(), world),
         };
         crate::verif_hooks::rng_reset(7);
+        *self.raised.borrow_mut() = None;
         let list: Vec<(packed::Script, ScriptType, u64)> = self
             .regs
             .iter()
@@ -75,6 +88,8 @@ impl<'a> Scenario for IndexScenario<'a> {
         }
         // a partial set_scripts that re-states a script's current record must not lose anything
         v.push(Dev::SetScripts(1, 0));
+        // ... and one that raises the first script's start number over data indexed so far
+        v.push(Dev::SetScripts(1, 1));
         v
     }
 
@@ -84,15 +99,24 @@ impl<'a> Scenario for IndexScenario<'a> {
             Dev::FetchHeader(n) => {
                 explore::user_fetch_header(sim, self.chain.blocks[*n as usize].hash())
             }
-            Dev::SetScripts(cmd, _) => {
+            Dev::SetScripts(cmd, which) => {
                 // re-register the first script with the block number the client currently reports
+                // (which = 0) or with a number three blocks below the peer's tip (which = 1)
                 let r = &self.regs[0];
                 let current = oracle::rpc_scripts(sim.c())
                     .into_iter()
                     .find(|(s, l, _)| s == &r.script && *l == r.is_lock)
                     .map(|(_, _, n)| n)
                     .unwrap_or(r.start);
-                explore::user_set_scripts(sim, *cmd, &[(r.script.clone(), r.is_lock, current)]);
+                let number = if *which == 0 {
+                    current
+                } else {
+                    current.max(self.chain.tip_number().saturating_sub(3))
+                };
+                if *which == 1 {
+                    *self.raised.borrow_mut() = Some(number);
+                }
+                explore::user_set_scripts(sim, *cmd, &[(r.script.clone(), r.is_lock, number)]);
             }
             _ => {}
         }
@@ -257,6 +281,7 @@ pub(crate) fn run(opts: &Opts, report: &mut Report) {
             filter_batch: batch,
             fetch_txs: interesting_txs(chain, regs),
             fetch_headers: vec![2],
+            raised: std::cell::RefCell::new(None),
         };
         let bound = if thorough { 2 } else { 1 };
         let max_runs = if thorough { 6000 } else { 1500 };
@@ -267,6 +292,7 @@ pub(crate) fn run(opts: &Opts, report: &mut Report) {
         let mut base_classes: Vec<String> = vec![];
         let stats = {
             let mut judge = |sim: &Sim, outcome: &RunOutcome, devs: &[(usize, Dev)], extra: &[(String, String, usize)]| {
+                let regs2 = sc.effective_regs();
                 let bad = judge_run(sim, outcome, &regs2, extra);
                 let has_cells = regs2.iter().any(|r| oracle::rpc_cells(sim.c(), &r.script, r.is_lock).map(|v| !v.is_empty()).unwrap_or(false));
                 if has_cells {
